@@ -17,7 +17,7 @@ PROPS = {
             "a failing message leaves no state change (the SDK runs messages in a cached context; the harness does the same)",
             "accounts and denominations are finite sets of arbitrary size (N, M universally quantified in the theorems)",
         ],
-        "level_text": "Machine-checked proof (Lean 4 kernel) that the DAO ledger invariant holds in every reachable state of the model and that fund/transfer move exactly the stated amounts, for the write order extracted from the current source; the model is tied to the real keeper by a differential run on every check.",
+        "level_text": "Machine-checked proof (Lean 4 kernel) that the DAO ledger invariant holds in every reachable state of the model and that fund/transfer move exactly the stated amounts, for the write order extracted from the current source, and that a genesis the module accepts starts from books that add up (single-denomination model of InitGenesis; the refusal of a repeated address is a regenerated fact); the model is tied to the real keeper by a differential run on every check, with histories restarted from their exported genesis.",
         "level_note": "Trusted: Lean kernel; the go/ast extractor; the correspondence harness; SDK bank/store semantics are modelled (parameters of the model), not verified.",
         "technique": "Lean 4 invariant proof by induction over op sequences + regenerated facts + differential correspondence",
         "explanation": "Inv (Σ shares = total = module account; holders index = support) proved by induction over arbitrary fund/transfer histories for the write order extracted from the current source; model tied to the real keeper by differential op sequences; raw-store monitors evaluate the three equalities on the real code after every op.",
@@ -145,7 +145,7 @@ PROPS = {
             "consumed <= gasLimit (checked by the code) and minGasMultiplier <= 1 (Params.Validate)",
             "multi-message Ethereum txs are sums of single-message settlements (the decorators loop over the messages)",
         ],
-        "level_text": "Machine-checked proofs (Lean 4) that an accepted Cosmos or Ethereum fee is at least minGasPrice x gasLimit — for a Cosmos transaction carrying the dynamic-fee option also the amount actually charged (kernel-checked counterexample for the code before cda7d87) —, that an Ethereum tx with fee cap below the base fee is refused, that gasUsed = max(floor(multiplier x limit), consumed - refund) never exceeds the limit, and that deduction minus refund is exactly gasUsed x effectivePrice; tied to the real decorators / VerifyFee on boundary tuples and to real signed Ethereum transactions through DeliverTx with sender and fee-collector deltas measured.",
+        "level_text": "Machine-checked proofs (Lean 4) that an accepted Cosmos or Ethereum fee is at least minGasPrice x gasLimit — and so is the amount a Cosmos transaction is actually charged, with or without the dynamic-fee option (kernel-checked counterexamples for the code before cda7d87 and before 1b01559) —, that an Ethereum tx with fee cap below the base fee is refused, that gasUsed = max(floor(multiplier x limit), consumed - refund) never exceeds the limit, and that deduction minus refund is exactly gasUsed x effectivePrice; tied to the real decorators / VerifyFee on boundary tuples and to real signed Ethereum transactions through DeliverTx with sender and fee-collector deltas measured.",
         "level_note": "Trusted: Lean kernel; correspondence harness; EVM gas consumption is an input of the model.",
         "technique": "Lean 4 arithmetic proofs (omega over floor/ceil division) + differential correspondence on real transactions",
         "explanation": "Floors, VerifyFee and the gasUsed/refund arithmetic modelled and proved; real transfers, storage set/clear (refund), reverts and out-of-gas runs are delivered and their gasUsed, sender payment and collector gain compared with the model and with independent big.Int monitors.",
